@@ -1217,3 +1217,14 @@ mod tests {
         );
     }
 }
+
+#[cfg(brood_verif)]
+pub(crate) mod verif {
+    pub use super::{
+        stage::Null as StageNull,
+        stages::Null as StagesNull,
+    };
+
+    /// The stages a schedule `S` is compiled into.
+    pub type StagesOf<'a, S, R, Resources, I> = <S as super::Sealed<'a, R, Resources, I>>::Stages;
+}
